@@ -176,7 +176,14 @@ def gen_spec(rs, p=None):
     # ---- chemostats
     mode = p["chem"]
     if mode == "mixed":
-        mode = rs.wchoice([("none", 3), ("species", 2), ("entry", 3)])
+        mode = rs.wchoice([("none", 3), ("species", 2), ("entry", 3), ("cleared", 1)])
+    if mode == "cleared":
+        # species-level flags are set but the system carries an explicit, (almost) all-zero map: the map wins
+        for s in species:
+            if rs.chance(0.6):
+                s["chst"] = [1 if rs.chance(0.7) else 0 for _ in range(nenv)]
+        spec["chem"] = [1 if rs.chance(0.05) else 0 for _ in range(ns * nc)]
+        mode = "done"
     if mode == "species":
         for s in species:
             if rs.chance(0.35):
